@@ -6,9 +6,15 @@ import json, os, sys
 VERIF = os.path.dirname(os.path.dirname(os.path.abspath(__file__)))
 sys.path.insert(0, os.path.join(VERIF, "analysis"))
 import export, facts as F
-out = {"params": {}, "upvars": {}, "adts": []}
+out = {"params": {}, "upvars": {}, "adts": [], "locals": {}}
 for cfg in ("memmap", "std", "alloc", "memmap-tracing"):
-    fx = F.Facts(export.export(cfg))
+    fpath = export.export(cfg)
+    fx = F.Facts(fpath)
+    with open(fpath) as fh:
+        raw = json.loads(F.canonical_closure_numbers(fh.read()))
+    for rb in raw["bodies"]:
+        if not rb["file"].startswith("/"):
+            out["locals"][rb["path"]] = sorted(set(out["locals"].get(rb["path"], [])) | set(F.local_names(rb)))
     out["adts"] = sorted(set(out["adts"]) | set(fx.adts))
     for b in fx.own:
         names = [b.locals[i + 1]["name"] or "arg%d" % i for i in range(b.nargs)]
